@@ -273,8 +273,9 @@ class Body:
             return "%s:%s" % (self.file, self.line)
         b = self.blocks[bb]
         sp = (b["stmts"][stmt]["sp"] if stmt is not None and stmt != "term" else b["term"]["sp"])
-        line = sp.get("call_line") if sp.get("exp") and not (sp["exp"] or {}).get("local") else sp["line"]
-        return "%s:%s" % (sp["file"], sp["line"] if line is None else line)
+        if sp.get("exp") and not sp["exp"].get("local") and sp.get("call_file"):
+            return "%s:%s" % (sp["call_file"], sp.get("call_line"))
+        return "%s:%s" % (sp["file"], sp["line"])
 
     def local_ty(self, l):
         return self.locals[l]["ty"]
